@@ -395,7 +395,9 @@ class kMinPathError(pathmodel.AbstractPathModelDAG):
                     continuous_var=self.slack_factors_vars[i],
                     product_var=self.scaled_slack_vars[i],
                     lb=0,
-                    ub=slack_ub * max(self.path_length_factors),
+                    # (the helper sizes the bits of the integer factor - the slack, up to slack_ub - from this bound:
+                    # with all factors below 1 the scaled bound alone would be too small for it)
+                    ub=slack_ub * max(1, max(self.path_length_factors)),
                     name=f"scaled_slack_i{i}",
                 )
                         
@@ -546,7 +548,9 @@ class kMinPathError(pathmodel.AbstractPathModelDAG):
                     continuous_var=self.slack_factors_vars[i],
                     product_var=self.scaled_slack_vars[i],
                     lb=0,
-                    ub=slack_ub * max(self.path_length_factors),
+                    # (the helper sizes the bits of the integer factor - the slack, up to slack_ub - from this bound:
+                    # with all factors below 1 the scaled bound alone would be too small for it)
+                    ub=slack_ub * max(1, max(self.path_length_factors)),
                     name=f"scaled_slack_i{i}",
                 )
                         
